@@ -1042,6 +1042,28 @@ class Evaluator:
             return Opaque("star-arguments")
         if isinstance(f, Func):
             return self._call_func(f, args, kw, text)
+        if isinstance(f, tuple) and f and f[0] == "extattr" and f[1] == "math" and args and all(isinstance(a, Num) for a in args) and not kw:
+            # math.log / log2 / log10 / log1p / exp / sqrt of literal numbers: 60-digit decimals (the results are irrational anyway)
+            from .num import CTX
+            from decimal import Decimal as _D
+            x = args[0].dec()
+            try:
+                if f[2] == "log" and len(args) == 1:
+                    return Num(approx=CTX.ln(x))
+                if f[2] == "log" and len(args) == 2:
+                    return Num(approx=CTX.divide(CTX.ln(x), CTX.ln(args[1].dec())))
+                if f[2] == "log2" and len(args) == 1:
+                    return Num(approx=CTX.divide(CTX.ln(x), CTX.ln(_D(2))))
+                if f[2] == "log10" and len(args) == 1:
+                    return Num(approx=CTX.log10(x))
+                if f[2] == "log1p" and len(args) == 1:
+                    return Num(approx=CTX.ln(CTX.add(x, _D(1))))
+                if f[2] == "exp" and len(args) == 1:
+                    return Num(approx=CTX.exp(x))
+                if f[2] == "sqrt" and len(args) == 1:
+                    return args[0].pow(Fraction(1, 2))
+            except Exception as ex:  # noqa: BLE001
+                raise DeclError(f"ValueError: math.{f[2]} of {x}: {ex}")
         if isinstance(f, tuple) and f and f[0] == "builtin":
             return self._builtin(f[1], args, kw)
         if isinstance(f, tuple) and f and f[0] == "cmethod":
